@@ -760,11 +760,12 @@ def check_graph(u, sp, hard, g, stats):
         cands = sp.req_candidates(r)
         tset = [nodes[t] for t in targets]
         if cands:
-            got = sorted(t["s"] for t in tset if isinstance(t, dict) and "s" in t)
-            if got != sorted(cands) or len(got) != len(tset):
+            # a requirement that its source lists twice yields two clauses and therefore duplicate edges: compare as sets
+            got = sorted(set(t["s"] for t in tset if isinstance(t, dict) and "s" in t))
+            if got != sorted(set(cands)) or any(not (isinstance(t, dict) and "s" in t) for t in tset):
                 bad("requires edge from %s for %s points at %s but the requirement's candidates are %s" % (nodes[a], r, tset, sorted(cands)))
         else:
-            if tset != ["unresolved"]:
+            if set(map(str, tset)) != {"unresolved"}:
                 bad("requires edge from %s for %s has no candidates but points at %s instead of the unresolved node" % (nodes[a], r, tset))
         ts = [N[t] for t in targets if N[t] is not None]
         if N[a] is not None:
@@ -920,9 +921,18 @@ def check_snapshot(u, problem, live, snap, stats):
             ok, _ = _check(stats, "model", full, [sp.X[i] if i in sol else z3.Not(sp.X[i]) for i in sp.X])
             if not ok:
                 viol.append({"prop": "C16", "what": "solution %s obtained through the %s is not valid against the live provider's data" % (sorted(sol), label)})
-            if live["result"] == "ok" and set(live["solution"]) != sol:
-                viol.append({"prop": "C16", "what": "the %s does not preserve the provider's preferences: live solve returned %s, snapshot solve %s" % (
-                    label, sorted(live["solution"]), sorted(sol))})
+
+    # the provider's candidate preference order: sorted candidates of every captured version set and union, as reported
+    # through the snapshot after the round trip, equal the live ranking (identical SOLUTIONS are not promised: the snapshot
+    # hints more solvables as cheaply available, which changes the order in which clauses are added and decisions are made)
+    for vid, so in snap.get("ranked", []):
+        if so != sp.ranked(vid):
+            viol.append({"prop": "C16", "what": "the snapshot does not preserve the provider's preference order: sorted candidates of vs%d are %s, the live provider ranks them %s" % (vid, so, sp.ranked(vid))})
+            break
+    for uid, so in snap.get("ranked_unions", []):
+        if so != sp.req_ranked({"u": uid}):
+            viol.append({"prop": "C16", "what": "the snapshot does not preserve the provider's preference order: sorted candidates of union %d are %s, the live provider ranks them %s" % (uid, so, sp.req_ranked({"u": uid}))})
+            break
     if snap["fresh_id"] in snap["captured_version_sets"]:
         viol.append({"prop": "C16", "what": "add_package_requirement returned id %d, which is a captured version set" % snap["fresh_id"]})
     if not snap["captured_resolve_after_add"]:
